@@ -103,7 +103,7 @@ LITS = [
 # heading texts whose first character is a legal label character other than a letter, or is dropped from the label
 HTXT = [[("t", ":colon first")], [("t", "-v option x")], [("t", ".NET notes")], [("t", "9 lives")], [("t", "(paren) first")], [("t", "Mixed.Case-And_More 2")], [("t", "_under first")]]
 LEAF = [("p", i) for i in INL] + [("h", (1, 3, 2, 2, 1, 1, 4)[n], t, ("atx", "atxc", "setext")[n % 3]) for n, t in enumerate(HTXT)] + [("h", 1, INL[0], "atx"), ("h", 2, INL[1], "atxc"), ("h", 1, INL[0], "setext"), ("h", 2, INL[2], "setext"), ("h", 6, INL[3], "atx"), ("hr",),
-                                  ("fence", "code <&>\nl2", "perl"), ("fence", "x", None), ("icode", "ind <&>\n  more"), ("fence", "esc \\< \\> \\\" \\& \\*", None), ("icode", "esc \\< \\> \\\" \\&")] + LITS
+                                  ("fence", "code <&>\nl2", "perl"), ("fence", "x", None), ("icode", "ind <&>\n  more"), ("fence", "esc \\< \\> \\\" \\& \\*", None), ("fence", "two trailing spaces  \n one leading space\n  two\nend ", None), ("icode", "esc \\< \\> \\\" \\&")] + LITS
 NP = len(INL)
 def containers():
     out = []
@@ -169,6 +169,10 @@ def make_case(docs):
         v = []
         if got != exp:
             kinds = "+".join(b[0] if b[0] != "h" else "h-" + b[3] for b in d)
+            # recorded finding, narrowly: the ONLY deviation is that lines of a fenced block inside a block quote lost their 1-3 leading spaces
+            if len(d) == 1 and d[0][0] == "bq" and len(d[0][1]) == 1 and d[0][1][0][0] == "fence":
+                f = d[0][1][0]; stripped = "\n".join(re.sub(r"^ {1,3}(?! )", "", l) for l in f[1].split("\n"))
+                if stripped != f[1] and got == (rbl([("bq", [("fence", stripped, f[2])])], labels) + "\n").encode(): kinds = "bq:fenced-code-line-loses-leading-spaces"
             v.append(("reference:%s:%s" % (kinds, mname), "HTML differs from the documented rendering for %r" % src, dict(src=src.decode("latin-1"), mode=mname, got=got.decode("utf-8", "replace"), expected=exp.decode("utf-8", "replace"))))
         return (pmap.h64(src + bytes([mi])), v, dict(judged=1))
     return case, len(docs) * len(MODES)
